@@ -1,8 +1,12 @@
 package main
 
 import (
+	"bytes"
 	"encoding/json"
 	"fmt"
+	"io"
+	"os/exec"
+	"runtime"
 	"go/ast"
 	"go/parser"
 	"go/token"
@@ -23,12 +27,13 @@ type c11Tok struct {
 	Text string `json:"t"`
 }
 type c11In struct {
-	Kind string   `json:"kind"` // disp | conf
+	Kind string   `json:"kind"` // disp | conf | cost
 	Toks []c11Tok `json:"toks,omitempty"`
 	Ops  []int    `json:"ops,omitempty"` // 0 Next 1 NextArg 2 NextLine 3 NextBlock 4 RemainingArgs 5 Val
 	Dir  string   `json:"dir,omitempty"`
 	Keys string   `json:"keys,omitempty"`
 	Body string   `json:"body,omitempty"` // the directive's lines (inside the server block)
+	Ops2 string   `json:"shape,omitempty"` // cost cases: the shape of the data-dependent argument (histogram / finding class)
 }
 
 func c11FileID(f string) uint64 {
@@ -150,6 +155,18 @@ func c11RunConf(in *c11In) Result {
 		c11Slow[in.Dir] = true
 	}
 	cv, cx := c11Class(v), c11Class(x)
+	// several keys: the directive set up for each key alone (validate mode) — the oracle of the model's prediction
+	var perkey []string
+	keys := strings.Split(in.Keys, ",")
+	if len(keys) > 1 && v != "timeout" && x != "timeout" {
+		for _, k := range keys {
+			r := c11Exec(strings.TrimSpace(k)+" {\n"+in.Body+"\n}\n", true)
+			if r == "timeout" {
+				c11Slow[in.Dir] = true
+			}
+			perkey = append(perkey, cN(c11Class(r)))
+		}
+	}
 	sig := fmt.Sprintf("conf:%s:validate=%d:execute=%d", in.Dir, cv, cx)
 	if cv == 2 || cx == 2 {
 		// name the panicking line so different panics of one directive are different findings
@@ -160,8 +177,144 @@ func c11RunConf(in *c11In) Result {
 		}
 		sig = fmt.Sprintf("conf:%s:panic:%s", in.Dir, strings.Join(strings.Fields(key), " "))
 	}
+	if len(perkey) > 0 {
+		return Result{Term: cApp("CConfKeys", cList(perkey), cN(cv), cN(cx)), Obs: map[string]interface{}{"validate": trunc(v, 200), "execute": trunc(x, 200), "perkey": perkey},
+			Sig: sig, Nontrivial: true, Key: text, Class: fmt.Sprintf("confkeys:%s:%d%d", in.Dir, cv, cx)}
+	}
 	return Result{Term: cApp("CConf", cN(cv), cN(cx)), Obs: map[string]interface{}{"validate": trunc(v, 200), "execute": trunc(x, 200)},
 		Sig: sig, Nontrivial: cv != cx || cv == 0, Key: text, Class: fmt.Sprintf("conf:%s:%d%d", in.Dir, cv, cx)}
+}
+
+// ---- configurations whose setup does data-dependent work: each mode runs in a child process of the harness
+// binary under a wall-clock limit (the parent kills it) and a heap limit (the child watches its own heap and
+// gives up), so that a setup that loops or allocates without bound is an observation and not the end of the run.
+
+const (
+	c11MaxMs   = 2000       // a directive line must be set up within 2 s ...
+	c11MaxKiB  = 256 * 1024 // ... allocating at most 256 MiB (the full port range 1-65535 of one upstream takes ~150 MiB)
+	c11KillMs  = 6000
+	c11HeapCap = 320 << 20 // the child gives up at 320 MiB of live heap
+)
+
+type c11CostWire struct {
+	Result string `json:"result"`
+	Ms     int64  `json:"ms"`
+	KiB    uint64 `json:"kib"`
+}
+
+func init() {
+	extraCommands["c11child"] = func(args []string) int {
+		raw, err := io.ReadAll(os.Stdin)
+		if err != nil {
+			return 3
+		}
+		var req struct {
+			Text     string `json:"text"`
+			Validate bool   `json:"validate"`
+		}
+		if json.Unmarshal(raw, &req) != nil {
+			return 3
+		}
+		casket.Quiet = true
+		var m0 runtime.MemStats
+		runtime.ReadMemStats(&m0)
+		t0 := time.Now()
+		report := func(res string) {
+			var m runtime.MemStats
+			runtime.ReadMemStats(&m)
+			b, _ := json.Marshal(c11CostWire{Result: res, Ms: time.Since(t0).Milliseconds(), KiB: (m.TotalAlloc - m0.TotalAlloc) / 1024})
+			os.Stdout.Write(append([]byte("C11RESULT "), append(b, '\n')...))
+		}
+		go func() {
+			for {
+				time.Sleep(10 * time.Millisecond)
+				var m runtime.MemStats
+				runtime.ReadMemStats(&m)
+				if m.HeapAlloc > c11HeapCap {
+					report("memlimit")
+					os.Exit(0)
+				}
+			}
+		}()
+		done := make(chan string, 1)
+		go func() {
+			defer func() {
+				if r := recover(); r != nil {
+					done <- "panic:" + fmt.Sprint(r)
+				}
+			}()
+			cf := casket.CasketfileInput{Contents: []byte(req.Text), Filepath: "Casketfile", ServerTypeName: "http"}
+			var err error
+			if req.Validate {
+				err = casket.ValidateAndExecuteDirectives(cf, nil, true)
+			} else {
+				err = casket.ValidateAndExecuteDirectives(cf, casket.VerifNewInstance("http"), false)
+			}
+			if err != nil {
+				done <- "error:" + err.Error()
+			} else {
+				done <- "ok"
+			}
+		}()
+		report(<-done)
+		return 0
+	}
+}
+
+func c11Child(text string, validate bool) c11CostWire {
+	exe, err := os.Executable()
+	if err != nil {
+		return c11CostWire{Result: "harness:" + err.Error()}
+	}
+	req, _ := json.Marshal(map[string]interface{}{"text": text, "validate": validate})
+	cmd := exec.Command(exe, "c11child")
+	cmd.Stdin = bytes.NewReader(req)
+	var out bytes.Buffer
+	cmd.Stdout = &out
+	t0 := time.Now()
+	if err := cmd.Start(); err != nil {
+		return c11CostWire{Result: "harness:" + err.Error()}
+	}
+	done := make(chan error, 1)
+	go func() { done <- cmd.Wait() }()
+	select {
+	case <-done:
+	case <-time.After(c11KillMs * time.Millisecond):
+		cmd.Process.Kill()
+		<-done
+		return c11CostWire{Result: "timeout", Ms: time.Since(t0).Milliseconds()}
+	}
+	for _, l := range strings.Split(out.String(), "\n") {
+		if strings.HasPrefix(l, "C11RESULT ") {
+			var w c11CostWire
+			if json.Unmarshal([]byte(strings.TrimPrefix(l, "C11RESULT ")), &w) == nil {
+				return w
+			}
+		}
+	}
+	return c11CostWire{Result: "crash:" + trunc(out.String(), 200), Ms: time.Since(t0).Milliseconds()}
+}
+
+func c11RunCost(in *c11In) Result {
+	text := in.Keys + " {\n" + in.Body + "\n}\n"
+	v := c11Child(text, true)
+	x := c11Child(text, false)
+	cv, cx := c11Class(v.Result), c11Class(x.Result)
+	ms, kib := v.Ms, v.KiB
+	if x.Ms > ms {
+		ms = x.Ms
+	}
+	if x.KiB > kib {
+		kib = x.KiB
+	}
+	within := cv < 2 && cx < 2 && ms <= c11MaxMs && kib <= c11MaxKiB
+	sig := "cost:" + in.Dir + ":" + in.Ops2
+	if !within {
+		sig += ":unbounded"
+	}
+	return Result{Term: cApp("CConfCost", cN(cv), cN(cx), cN(uint64(ms)), cN(kib), cN(c11MaxMs), cN(c11MaxKiB)),
+		Obs:  map[string]interface{}{"validate": trunc(v.Result, 120), "execute": trunc(x.Result, 120), "ms": ms, "kib": kib, "max_ms": c11MaxMs, "max_kib": c11MaxKiB},
+		Sig:  sig, Nontrivial: true, Key: text, Class: "cost:" + in.Dir + ":" + in.Ops2}
 }
 
 func trunc(s string, n int) string {
@@ -175,6 +328,9 @@ func c11Run(in0 interface{}) Result {
 	in := in0.(*c11In)
 	if in.Kind == "disp" {
 		return c11RunDisp(in)
+	}
+	if in.Kind == "cost" {
+		return c11RunCost(in)
 	}
 	return c11RunConf(in)
 }
@@ -245,6 +401,97 @@ func c11Vocab(dir string) []string {
 	return out
 }
 
+// c11Unproved: the obligations of this run that lia could not prove and that are not pinned (lib/c11.py left
+// them as comments in coq/Gen_C11.v; the translator wrote their sites to run/c11_obligations.json). For each
+// one the generator adds a targeted search: the directives whose code holds the site get many more
+// configurations, with argument strings taken from the enclosing function's own string literals and their
+// boundary variants (empty, one character, a literal cut short or extended).
+type c11Target struct {
+	dirs []string
+	lex  []string
+	site string
+}
+
+func c11Unproved() []c11Target {
+	root, repo := os.Getenv("VERIF_ROOT"), os.Getenv("VERIF_REPO")
+	if root == "" {
+		return nil
+	}
+	if repo == "" {
+		repo = "/repo"
+	}
+	gen, err := os.ReadFile(filepath.Join(root, "coq", "Gen_C11.v"))
+	if err != nil {
+		return nil
+	}
+	var meta []struct {
+		ID, File, Func, Expr string
+		Line                 int
+		Hash                 string `json:"func_hash"`
+	}
+	raw, err := os.ReadFile(filepath.Join(root, "run", "c11_obligations.json"))
+	if err != nil || json.Unmarshal(raw, &meta) != nil {
+		return nil
+	}
+	var pins struct {
+		Pins []struct {
+			File, Func, Expr string
+			Hash             string `json:"func_hash"`
+		}
+	}
+	if raw, err := os.ReadFile(filepath.Join(root, "lib", "c11_pins.json")); err == nil {
+		json.Unmarshal(raw, &pins)
+	}
+	pinned := map[string]bool{}
+	for _, p := range pins.Pins {
+		pinned[p.File+"|"+p.Func+"|"+p.Hash+"|"+p.Expr] = true
+	}
+	var out []c11Target
+	for _, o := range meta {
+		if !strings.Contains(string(gen), "removed: Lemma "+o.ID+" ") || pinned[o.File+"|"+o.Func+"|"+o.Hash+"|"+o.Expr] {
+			continue
+		}
+		t := c11Target{site: fmt.Sprintf("%s:%d %s", o.File, o.Line, o.Expr)}
+		pkg := filepath.ToSlash(filepath.Dir(o.File))
+		for d, p := range c11Pkg {
+			if p == pkg {
+				t.dirs = append(t.dirs, d)
+			}
+		}
+		if len(t.dirs) == 0 {
+			// shared code (httpserver, casketfile, the root package): every directive may reach it
+			for d := range c11Pkg {
+				t.dirs = append(t.dirs, d)
+			}
+		}
+		sort.Strings(t.dirs)
+		// string literals of the enclosing function
+		fset := token.NewFileSet()
+		if af, err := parser.ParseFile(fset, filepath.Join(repo, o.File), nil, 0); err == nil {
+			for _, decl := range af.Decls {
+				fd, ok := decl.(*ast.FuncDecl)
+				if !ok || fd.Name.Name != o.Func || fd.Body == nil {
+					continue
+				}
+				ast.Inspect(fd.Body, func(n ast.Node) bool {
+					if bl, ok := n.(*ast.BasicLit); ok && bl.Kind == token.STRING {
+						if s, err := strconv.Unquote(bl.Value); err == nil && len(s) < 24 && !strings.ContainsAny(s, "\n{}\"") {
+							t.lex = append(t.lex, s, s+"x", s+s)
+							if len(s) > 0 {
+								t.lex = append(t.lex, s[:len(s)-1], s[1:], "x"+s, s[:1])
+							}
+						}
+					}
+					return true
+				})
+			}
+		}
+		t.lex = append(t.lex, "", "a", "ab", "abc", "!", "!a", "/", ".", ":", "-", "=")
+		out = append(out, t)
+	}
+	return out
+}
+
 func c11Gen(r *Rand, tier string) []interface{} {
 	var out []interface{}
 	nDisp, perDir := 900, 25
@@ -299,6 +546,31 @@ func c11Gen(r *Rand, tier string) []interface{} {
 		return s
 	}
 	keysPool := []string{"127.0.0.1:0", "127.0.0.1:0", "a.b.example.test:0, example.test:0", "localhost:0", "http://x.test:0"}
+	// single keys of different shapes: setup of some directives depends on the key it runs for (tls wildcard on
+	// the number of labels / an existing wildcard label, scheme, path); blocks with several keys draw from here.
+	// No name that qualifies for a managed certificate (a bare "test"): the start-only callback would go to the network for it
+	keyShapes := []string{"a.b.example.test:0", "example.test:0", "*.example.test:0", "c.d.e.example.test:0", "localhost:0", "127.0.0.1:0",
+		"http://x.test:0", "y.example.test:0/sub", "http://z.example.test:0/p"}
+	multiKeys := func() string {
+		n := 2
+		if r.Chance(35) {
+			n = 3
+		}
+		perm := make([]int, len(keyShapes))
+		for i := range perm {
+			perm[i] = i
+		}
+		for i := len(perm) - 1; i > 0; i-- {
+			j := r.Intn(i + 1)
+			perm[i], perm[j] = perm[j], perm[i]
+		}
+		var ks []string
+		for _, i := range perm[:n] {
+			ks = append(ks, keyShapes[i])
+		}
+		return strings.Join(ks, ", ")
+	}
+	targets := c11Unproved()
 	for _, d := range dirs {
 		vocab := c11Vocab(c11Pkg[d])
 		// systematic: every keyword of the directive's vocabulary with 0..3 arguments, as a
@@ -320,7 +592,22 @@ func c11Gen(r *Rand, tier string) []interface{} {
 				}
 			}
 		}
-		for i := 0; i < perDir; i++ {
+		nRand, dlex := perDir, lex
+		for _, t := range targets {
+			for _, td := range t.dirs {
+				if td == d {
+					if len(t.dirs) <= 2 {
+						nRand += 12 * perDir
+					} else {
+						nRand += perDir
+					}
+					dlex = append(append([]string(nil), dlex...), t.lex...)
+					dlex = append(dlex, t.lex...) // twice: half of the draws come from the targeted strings
+				}
+			}
+		}
+		for i := 0; i < nRand; i++ {
+			lex := dlex
 			var sb strings.Builder
 			nLines := 1
 			if r.Chance(15) {
@@ -359,7 +646,39 @@ func c11Gen(r *Rand, tier string) []interface{} {
 				}
 				sb.WriteString("\n")
 			}
-			out = append(out, &c11In{Kind: "conf", Dir: d, Keys: r.Pick(keysPool), Body: sb.String()})
+			keys := r.Pick(keysPool)
+			if r.Chance(20) {
+				keys = multiKeys()
+			}
+			out = append(out, &c11In{Kind: "conf", Dir: d, Keys: keys, Body: sb.String()})
+		}
+	}
+	// data-dependent work in setup: upstream port ranges of proxy (one upstream host per port)
+	type rg struct{ lo, hi int }
+	ranges := []rg{{1, 1}, {1, 2}, {80, 90}, {8000, 8100}, {1, 1000}, {1, 65535}, {5, 4}, {0, 0}}
+	hostile := []rg{{1, 70000}, {1, 999999999}}
+	if tier == "thorough" {
+		hostile = append(hostile, rg{1, 200000}, rg{65000, 999999999})
+		for i := 0; i < 40; i++ {
+			lo := r.Range(0, 65535)
+			ranges = append(ranges, rg{lo, lo + r.Range(0, 65535-lo)})
+		}
+		hostile = append(hostile, rg{1, 2147483647}, rg{1, 5000000})
+	}
+	shape := func(g rg) string {
+		switch n := g.hi - g.lo; {
+		case n < 0:
+			return "range-empty"
+		case g.hi <= 65535:
+			return "range<=65535"
+		}
+		return "range>65535"
+	}
+	for _, g := range append(ranges, hostile...) {
+		up := fmt.Sprintf("127.0.0.1:%d-%d", g.lo, g.hi)
+		out = append(out, &c11In{Kind: "cost", Dir: "proxy", Keys: keysPool[0], Ops2: shape(g), Body: "proxy / " + up + "\n"})
+		if g.hi-g.lo < 2000 || g.hi > 100000000 {
+			out = append(out, &c11In{Kind: "cost", Dir: "proxy", Keys: keysPool[0], Ops2: shape(g), Body: "proxy / 127.0.0.1:9 {\n  upstream " + up + "\n}\n"})
 		}
 	}
 	return out
@@ -368,7 +687,7 @@ func c11Gen(r *Rand, tier string) []interface{} {
 func init() {
 	register(&Property{
 		ID: "C11", Imports: "V.Lib V.C11_Model V.C11_Cases", Judge: "judge", Shard: 300,
-		Rule: "Dispenser: random token lists (incl. foreign files / non-monotone lines as spliced imports produce) x random operation sequences on the real casketfile.Dispenser vs the model; configurations: for every registered directive, argument counts 0..4 over lexical classes and sub-blocks over the directive's own keyword vocabulary (harvested from its package's case labels), each run through ValidateAndExecuteDirectives in validate and in execute mode under recover + watchdog; non-trivial = >=2 tokens / accepted or mode-dependent configuration; distinct = distinct configuration text",
+		Rule: "(targeted search: for every obligation of this run that lia does not prove and that is not pinned, the directives holding the site get 13x the configurations with the enclosing function's own string literals and their boundary variants as arguments; cost cases: proxy upstream port ranges, each mode in a child process under 2 s / 256 MiB, killed at 6 s / 320 MiB live heap; blocks with 2-3 keys of different shapes carry the per-key outcomes and are held against the executeDirectives model) Dispenser: random token lists (incl. foreign files / non-monotone lines as spliced imports produce) x random operation sequences on the real casketfile.Dispenser vs the model; configurations: for every registered directive, argument counts 0..4 over lexical classes and sub-blocks over the directive's own keyword vocabulary (harvested from its package's case labels), each run through ValidateAndExecuteDirectives in validate and in execute mode under recover + watchdog; non-trivial = >=2 tokens / accepted or mode-dependent configuration; distinct = distinct configuration text",
 		Gen:    c11Gen,
 		Decode: func(raw json.RawMessage) (interface{}, error) { in := &c11In{}; return in, json.Unmarshal(raw, in) },
 		Run:    c11Run,
